@@ -78,7 +78,7 @@ def exe_outputs(tool, src_path, scratch):
 def check(tool, text, scratch, with_exe):
     ext = 'x' if tool == 'x' else 'S'
     sp = os.path.join(scratch, 'p.' + ext)
-    open(sp, 'w').write(text)
+    open(sp, 'w', encoding='latin-1').write(text)
     op = os.path.join(scratch, 'other.' + ext)
     open(op, 'w').write(OTHER_X if tool == 'x' else OTHER_S)
     o, err = inproc(tool, sp, op, scratch)
